@@ -1,48 +1,13 @@
-import OjgVerif.Writer.Pretty
-import OjgVerif.Writer.LemmasParse
-/-! Lemmas about the `pretty` model when no alignment TABLE is used (Align off, or no array of the tree
-is a table; keys of a map may still be aligned): `fill` appends a text that is a function of the
-tree (`ptext`: the same tokens as the `oj` writers, other white space), and the RFC 8259 reader
-gives back the tree minus the members OmitNil / OmitEmpty name. -/
+import OjgVerif.Writer.LemmasAlign
+/-! Lemmas about the `pretty` model when the only alignment tables used are tables of ARRAYS (Align off,
+or every table of the tree is an array of arrays without objects inside; keys of a map may be
+aligned): `fill` appends a text that is a function of the tree (`ptext`: the same tokens as the `oj`
+writers, other white space), and the RFC 8259 reader gives back the tree minus the members
+OmitNil / OmitEmpty name. The table functions themselves are in `LemmasAlign.lean`. -/
 set_option linter.unusedSimpArgs false
 set_option linter.unusedVariables false
 namespace OjgVerif.Writer.Pretty
 open OjgVerif OjgVerif.Json OjgVerif.Writer
-
-/-! ### the state -/
-
-def PSt.flat (s : PSt) : Bytes := s.st.flat
-
-theorem push_ok (s : PSt) (bs : Bytes) (h : s.bad = false) :
-    (s.push bs).bad = false ∧ (s.push bs).flat = s.flat ++ bs := by
-  simp [PSt.push, h, PSt.flat]
-
-theorem push1_ok (s : PSt) (b : UInt8) (h : s.bad = false) :
-    (s.push1 b).bad = false ∧ (s.push1 b).flat = s.flat ++ [b] := by
-  simp [PSt.push1, h, PSt.flat]
-
-theorem flush_ok (lim : Option Nat) (s : PSt) (h : s.bad = false) :
-    (s.flush lim).bad = false ∧ (s.flush lim).flat = s.flat := by
-  simp [PSt.flush, h, PSt.flat]
-
-theorem pad_zero (s : PSt) : s.pad 0 = s := rfl
-
-/-! ### what `build` produces -/
-
-/-- the members `buildMapNode` keeps, with their encoded keys -/
-theorem buildMembers_fst (o : POpts) (bv : JV → PNode) : ∀ (kvs : Kvs) (acc : List (Bytes × PNode)) (sz dp : Nat),
-    (buildMembers o bv kvs acc sz dp).1 =
-      acc.reverse ++ (kvs.filter fun kv => !(bv kv.2).skip).map fun kv => (jsonString kv.1 (!o.htmlUnsafe), bv kv.2) := by
-  intro kvs
-  induction kvs with
-  | nil => intro acc sz dp; simp [buildMembers]
-  | cons kv r ih =>
-    intro acc sz dp
-    obtain ⟨k, v⟩ := kv
-    simp only [buildMembers]
-    by_cases h : (bv v).skip = true
-    · simp [h, ih]
-    · simp [h, ih]
 
 /-! ### the text as a function of the tree -/
 
@@ -227,7 +192,156 @@ def kwOf (w : PW) (ord : Kvs → Kvs) (f : Nat) (kvs : Kvs) : Nat :=
     maxKeyLen ((keptP w ord f kvs).map fun kv => (jsonString kv.1 (!w.o.htmlUnsafe), build w.o ord f kv.2)) 1
   else 1
 
-/-- the text `fill` produces when no table is aligned -/
+/-- the table `fill` aligns the rows of an array node with — if it does: Align is on, the node is not
+deeper than MaxDepth, has two rows or more, all arrays or all maps, the table is not mixed and fits
+the width -/
+def tableOf (w : PW) (n : PNode) (ms : List PNode) (ndepth depth : Nat) : Option Table :=
+  match (if !w.o.align || w.o.maxDepth < ndepth || ms.length < 2 then none else genTables w.fuel n) with
+  | none => none
+  | some c => if c.mixed || w.width < depth * w.indent + c.size then none else some c
+
+/-- the table for the node built from an array value -/
+def tableOfV (w : PW) (ord : Kvs → Kvs) (f : Nat) (xs : List JV) (depth : Nat) : Option Table :=
+  tableOf w (build w.o ord (f + 1) (.arr xs)) (xs.map (build w.o ord f)) (arrDepth (xs.map (build w.o ord f)) 0) depth
+
+theorem fill_arr_eq (w : PW) (lim : Option Nat) (f : Nat) (ms : List PNode) (size ndepth : Nat) (sk : Bool)
+    (depth : Nat) (flat : Bool) (s : PSt) :
+    fill w lim (f + 1) (.arr ms size ndepth sk) depth flat s =
+      PSt.flush lim
+        (((match tableOf w (.arr ms size ndepth sk) ms ndepth depth with
+            | none => fillElems (fill w lim f)
+                (layoutOf w depth (flat || (depth * w.indent + size < w.width && ndepth < w.o.maxDepth))).1
+                (layoutOf w depth (flat || (depth * w.indent + size < w.width && ndepth < w.o.maxDepth))).2.2
+                (depth + 1) ms 0 (s.push1 91)
+            | some c => alignRows w.fuel c
+                (layoutOf w depth (flat || (depth * w.indent + size < w.width && ndepth < w.o.maxDepth))).1 ms 0
+                (s.push1 91)).push
+          (layoutOf w depth (flat || (depth * w.indent + size < w.width && ndepth < w.o.maxDepth))).2.1).push1 93) := by
+  simp only [fill, tableOf]
+  cases htb : (if (!w.o.align || decide (w.o.maxDepth < ndepth) || decide (ms.length < 2)) = true then none
+      else genTables w.fuel (.arr ms size ndepth sk)) with
+  | none => rfl
+  | some c =>
+    simp only
+    by_cases hbad : (c.mixed || decide (w.width < depth * w.indent + c.size)) = true
+    · simp only [hbad, ↓reduceIte]
+    · simp only [hbad, Bool.false_eq_true, ↓reduceIte]
+
+theorem tablesArr_mem_list : ∀ (xs : List JV), tablesArrL xs → ∀ x ∈ xs, tablesArr x := by
+  intro xs
+  induction xs with
+  | nil => intro _ x h; simp at h
+  | cons y r ih =>
+    intro hok x h
+    simp only [tablesArrL] at hok
+    simp only [List.mem_cons] at h
+    rcases h with rfl | h
+    · exact hok.1
+    · exact ih hok.2 x h
+
+theorem tablesArr_mem_kvs : ∀ (kvs : Kvs), tablesArrK kvs → ∀ kv ∈ kvs, tablesArr kv.2 := by
+  intro kvs
+  induction kvs with
+  | nil => intro _ x h; simp at h
+  | cons y r ih =>
+    intro hok x h
+    obtain ⟨k, v⟩ := y
+    simp only [tablesArrK] at hok
+    simp only [List.mem_cons] at h
+    rcases h with rfl | h
+    · exact hok.1
+    · exact ih hok.2 x h
+
+theorem tableOf_some (w : PW) (n : PNode) (ms : List PNode) (ndepth depth : Nat) (c : Table)
+    (h : tableOf w n ms ndepth depth = some c) :
+    w.o.align = true ∧ 2 ≤ ms.length ∧ genTables w.fuel n = some c ∧ depth * w.indent + c.size ≤ w.width := by
+  unfold tableOf at h
+  split at h
+  · cases h
+  · rename_i c0 heq
+    split at h
+    · cases h
+    · rename_i hbad
+      injection h with h
+      subst h
+      split at heq
+      · cases heq
+      · rename_i hcond
+        simp only [Bool.or_eq_true, Bool.not_eq_true', decide_eq_true_eq, not_or, Bool.not_eq_false, Nat.not_lt] at hcond hbad
+        exact ⟨hcond.1.1, hcond.2, heq, hbad.2⟩
+
+theorem genTables_some (fuel : Nat) (ms : List PNode) (sz dp : Nat) (sk : Bool) (c : Table)
+    (h : genTables fuel (.arr ms sz dp sk) = some c) :
+    (subKind (ms.map PNode.kind) 0 = Gen.Pretty.arrayNode ∨ subKind (ms.map PNode.kind) 0 = Gen.Pretty.mapNode) ∧
+      c = foldUpd fuel ms (.mk (.idx 0) 0 [] 0) := by
+  have e : genTables fuel (.arr ms sz dp sk) =
+      (if (decide (subKind (List.map PNode.kind ms) 0 = Gen.Pretty.arrayNode) ||
+          decide (subKind (List.map PNode.kind ms) 0 = Gen.Pretty.mapNode)) = true then
+        some (foldUpd fuel ms (.mk (.idx 0) 0 [] 0)) else none) := rfl
+  rw [e] at h
+  by_cases hk : (decide (subKind (List.map PNode.kind ms) 0 = Gen.Pretty.arrayNode) ||
+      decide (subKind (List.map PNode.kind ms) 0 = Gen.Pretty.mapNode)) = true
+  · rw [if_pos hk] at h
+    injection h with h
+    simp only [Bool.or_eq_true, decide_eq_true_eq] at hk
+    exact ⟨hk, h.symm⟩
+  · rw [if_neg hk] at h; cases h
+
+/-- when `fill` aligns the rows of an array of a tree whose tables are tables of arrays: the rows are
+arrays without objects, the table satisfies the invariant, covers every row and fits the width -/
+theorem tableOfV_facts (w : PW) (ord : Kvs → Kvs) (f : Nat) (xs : List JV) (d : Nat) (c : Table)
+    (hfu : f ≤ w.fuel) (hnt : tablesArr (.arr xs)) (h : tableOfV w ord f xs d = some c) :
+    xs.all isArr = true ∧ arrOnlyL xs ∧ TableA c ∧ (∀ y ∈ xs, Cov (build w.o ord f y) c) ∧
+      d * w.indent + c.size ≤ w.width := by
+  have hb : build w.o ord (f + 1) (.arr xs) = .arr (xs.map (build w.o ord f))
+      (arrSize (xs.map (build w.o ord f)) 0 2) (arrDepth (xs.map (build w.o ord f)) 0)
+      (w.o.omitEmpty && xs.length = 0) := by simp [build]
+  unfold tableOfV at h
+  rw [hb] at h
+  obtain ⟨hal, hlen, hg, hfit⟩ := tableOf_some _ _ _ _ _ _ h
+  simp only [List.length_map] at hlen
+  obtain ⟨hk, hc⟩ := genTables_some _ _ _ _ _ _ hg
+  simp only [tablesArr] at hnt
+  obtain ⟨hno, harr⟩ := hnt.1 hlen
+  have hnz : ∀ x ∈ (xs.map (build w.o ord f)).map PNode.kind, x ≠ 0 := by
+    intro x hx
+    simp only [List.map_map, List.mem_map, Function.comp] at hx
+    obtain ⟨y, _, rfl⟩ := hx
+    exact build_kind_ne_zero w.o ord f y
+  have hallarr : xs.all isArr = true := by
+    rcases hk with hk | hk
+    · have hall := subKind_all _ _ (by decide) hnz hk
+      simp only [List.all_eq_true]
+      intro y hy
+      exact build_kind_arr w.o ord f y (hall _ (by
+        simp only [List.map_map, List.mem_map, Function.comp]; exact ⟨y, hy, rfl⟩))
+    · exfalso
+      have hall := subKind_all _ _ (by decide) hnz hk
+      have : xs.all isObj = true := by
+        simp only [List.all_eq_true]
+        intro y hy
+        exact build_kind_obj w.o ord f y (hall _ (by
+          simp only [List.map_map, List.mem_map, Function.comp]; exact ⟨y, hy, rfl⟩))
+      rw [this] at hno; cases hno
+  have hao := harr hallarr
+  have hrows : ∀ r ∈ xs.map (build w.o ord f), AOnly r ∧ r.height ≤ w.fuel := by
+    intro r hr
+    simp only [List.mem_map] at hr
+    obtain ⟨y, hy, rfl⟩ := hr
+    exact ⟨AOnly_build w.o ord f y (arrOnlyL_mem xs hao y hy), by have := height_build w.o ord f y; omega⟩
+  obtain ⟨k1, k2, _⟩ := foldUpd_arr w.fuel (xs.map (build w.o ord f)) (.mk (.idx 0) 0 [] 0) hrows (TableA_fresh 0)
+  rw [← hc] at k1 k2
+  exact ⟨hallarr, hao, k1, fun y hy => k2 _ (List.mem_map_of_mem hy), hfit⟩
+
+/-- the rows of `checkAlign` as the elements of an array text -/
+theorem rowsT_eq (fuel : Nat) (c : Table) (cs : Bytes) (bv : JV → PNode) : ∀ (r : List JV) (i : Nat),
+    rowsT fuel c cs (r.map bv) (i + 1) = tElems (fun y => nodeT fuel (bv y) c) cs r := by
+  intro r
+  induction r with
+  | nil => intro i; rfl
+  | cons y r ih => intro i; simp [rowsT, tElems, ih]
+
+/-- the text `fill` produces when the only tables aligned are tables of arrays -/
 def ptext (w : PW) (ord : Kvs → Kvs) : Nat → JV → Nat → Bool → Bytes
   | 0, _, _, _ => []
   | f+1, v, d, flat =>
@@ -243,6 +357,12 @@ def ptext (w : PW) (ord : Kvs → Kvs) : Nat → JV → Nat → Bool → Bytes
       match xs with
       | [] => 91 :: ((lay w ord (f + 1) (.arr []) d flat).2.1 ++ [93])
       | x :: r =>
+        match tableOfV w ord f (x :: r) d with
+        | some c =>
+          91 :: ((lay w ord (f + 1) (.arr (x :: r)) d flat).1 ++ nodeT w.fuel (build w.o ord f x) c
+            ++ tElems (fun y => nodeT w.fuel (build w.o ord f y) c) (lay w ord (f + 1) (.arr (x :: r)) d flat).1 r
+            ++ (lay w ord (f + 1) (.arr (x :: r)) d flat).2.1 ++ [93])
+        | none =>
         91 :: ((if (lay w ord (f + 1) (.arr (x :: r)) d flat).2.2 then [] else (lay w ord (f + 1) (.arr (x :: r)) d flat).1)
           ++ ptext w ord f x (d + 1) (lay w ord (f + 1) (.arr (x :: r)) d flat).2.2
           ++ tElems (fun y => ptext w ord f y (d + 1) (lay w ord (f + 1) (.arr (x :: r)) d flat).2.2)
@@ -386,15 +506,16 @@ theorem fillMembers_spec (fv : PNode → Nat → Bool → PSt → PSt) (bv : JV 
 
 /-- when no table is aligned (Align off, or no array of the tree is a table), everything `fill` does
 amounts to appending `ptext`; no slice is ever out of range (`bad` stays off) -/
-theorem fill_flat (w : PW) (lim : Option Nat) (ord : Kvs → Kvs) (hord : IsOrder ord) :
-    ∀ (f : Nat) (v : JV) (d : Nat) (flat : Bool) (s : PSt), (w.o.align = true → noTable v) → s.bad = false →
+theorem fill_flat (w : PW) (lim : Option Nat) (ord : Kvs → Kvs) (hord : IsOrder ord) (hw : w.width ≤ 128) :
+    ∀ (f : Nat) (v : JV) (d : Nat) (flat : Bool) (s : PSt), (w.o.align = true → tablesArr v) → f ≤ w.fuel →
+      s.bad = false →
       (fill w lim f (build w.o ord f v) d flat s).bad = false ∧
       (fill w lim f (build w.o ord f v) d flat s).flat = s.flat ++ ptext w ord f v d flat := by
   intro f
   induction f with
-  | zero => intro v d flat s _ hs; simp [fill, ptext, hs]
+  | zero => intro v d flat s _ _ hs; simp [fill, ptext, hs]
   | succ f ih =>
-    intro v d flat s hnt hs
+    intro v d flat s hnt hfu hs
     have leaf : ∀ (k : UInt8) (buf : Bytes) (sk : Bool),
         (fill w lim (f + 1) (.leaf k buf sk) d flat s).bad = false ∧
         (fill w lim (f + 1) (.leaf k buf sk) d flat s).flat = s.flat ++ buf := by
@@ -418,45 +539,62 @@ theorem fill_flat (w : PW) (lim : Option Nat) (ord : Kvs → Kvs) (hord : IsOrde
       have hl : layoutOf w d (flat || (d * w.indent + arrSize (xs.map (build w.o ord f)) 0 2 < w.width &&
           arrDepth (xs.map (build w.o ord f)) 0 < w.o.maxDepth)) = lay w ord (f + 1) (.arr xs) d flat := by
         simp [lay, hb, PNode.size, PNode.depth]
-      have htbl : (if (!w.o.align || decide (w.o.maxDepth < arrDepth (xs.map (build w.o ord f)) 0) ||
-            decide ((xs.map (build w.o ord f)).length < 2)) = true then none
-          else genTables w.fuel (.arr (xs.map (build w.o ord f)) (arrSize (xs.map (build w.o ord f)) 0 2)
-            (arrDepth (xs.map (build w.o ord f)) 0) (w.o.omitEmpty && xs.length = 0))) = none := by
-        by_cases hal : w.o.align = true
-        · have hn := hnt hal
-          simp only [noTable] at hn
-          rcases hn.1 with hlt | hno
-          · simp [hlt]
-          · split
-            · rfl
-            · apply genTables_none _ _ _ _ _ _ _ _ hno
-              intro he; subst he; simp at hno
-        · simp [hal]
-      have hnm : ∀ y ∈ xs, (w.o.align = true → noTable y) := by
+      have hnm : ∀ y ∈ xs, (w.o.align = true → tablesArr y) := by
         intro y hy hal
         have hn := hnt hal
-        simp only [noTable] at hn
-        exact noTable_mem_list _ hn.2 y hy
-      rw [hb]
-      simp only [fill, hl, htbl]
+        simp only [tablesArr] at hn
+        exact tablesArr_mem_list _ hn.2 y hy
+      rw [hb, fill_arr_eq, hl]
       have h1 := push1_ok s 91 hs
       cases xs with
       | nil =>
+        have htn : tableOf w (.arr (([] : List JV).map (build w.o ord f)) (arrSize (([] : List JV).map (build w.o ord f)) 0 2)
+            (arrDepth (([] : List JV).map (build w.o ord f)) 0) (w.o.omitEmpty && ([] : List JV).length = 0))
+            (([] : List JV).map (build w.o ord f)) (arrDepth (([] : List JV).map (build w.o ord f)) 0) d = none := by
+          simp [tableOf]
+        rw [htn]
         have h2 := push_ok (s.push1 91) (lay w ord (f + 1) (.arr []) d flat).2.1 h1.1
         have h3 := push1_ok _ 93 h2.1
         have h4 := flush_ok lim _ h3.1
         simp only [List.map_nil, fillElems, ptext]
         exact ⟨h4.1, by rw [h4.2, h3.2, h2.2, h1.2]; simp⟩
       | cons x r =>
-        have hsp := fillElems_spec (fill w lim f) (build w.o ord f)
-          (fun y => ptext w ord f y (d + 1) (lay w ord (f + 1) (.arr (x :: r)) d flat).2.2)
-          (lay w ord (f + 1) (.arr (x :: r)) d flat).1 (lay w ord (f + 1) (.arr (x :: r)) d flat).2.2 (d + 1)
-          r x 0 (s.push1 91) (fun y hy s hs => ih y (d + 1) _ s (hnm y hy) hs) h1.1
-        have h2 := push_ok _ (lay w ord (f + 1) (.arr (x :: r)) d flat).2.1 hsp.1
-        have h3 := push1_ok _ 93 h2.1
-        have h4 := flush_ok lim _ h3.1
+        have htv : tableOf w (.arr ((x :: r).map (build w.o ord f)) (arrSize ((x :: r).map (build w.o ord f)) 0 2)
+            (arrDepth ((x :: r).map (build w.o ord f)) 0) (w.o.omitEmpty && (x :: r).length = 0))
+            ((x :: r).map (build w.o ord f)) (arrDepth ((x :: r).map (build w.o ord f)) 0) d =
+            tableOfV w ord f (x :: r) d := by
+          simp only [tableOfV, hb]
+        rw [htv]
         simp only [ptext]
-        exact ⟨h4.1, by rw [h4.2, h3.2, h2.2, hsp.2, h1.2]; simp⟩
+        cases htab : tableOfV w ord f (x :: r) d with
+        | none =>
+          have hsp := fillElems_spec (fill w lim f) (build w.o ord f)
+            (fun y => ptext w ord f y (d + 1) (lay w ord (f + 1) (.arr (x :: r)) d flat).2.2)
+            (lay w ord (f + 1) (.arr (x :: r)) d flat).1 (lay w ord (f + 1) (.arr (x :: r)) d flat).2.2 (d + 1)
+            r x 0 (s.push1 91) (fun y hy s hs => ih y (d + 1) _ s (hnm y hy) (by omega) hs) h1.1
+          have h2 := push_ok _ (lay w ord (f + 1) (.arr (x :: r)) d flat).2.1 hsp.1
+          have h3 := push1_ok _ 93 h2.1
+          have h4 := flush_ok lim _ h3.1
+          simp only
+          exact ⟨h4.1, by rw [h4.2, h3.2, h2.2, hsp.2, h1.2]; simp⟩
+        | some c =>
+          have hal : w.o.align = true := (tableOf_some _ _ _ _ _ _ (by rw [htv]; exact htab)).1
+          obtain ⟨_, hao, hta, _, hfit⟩ := tableOfV_facts w ord f (x :: r) d c (by omega) (hnt hal) htab
+          have hrok : ∀ m ∈ (x :: r).map (build w.o ord f), nodeOK w.fuel m c := by
+            intro m hm
+            simp only [List.mem_map] at hm
+            obtain ⟨y, hy, rfl⟩ := hm
+            exact nodeOK_of_TableA w.fuel _ c (AOnly_build w.o ord f y (arrOnlyL_mem _ hao y hy)) hta (by omega)
+          have hsp := alignRows_flat w.fuel c (lay w ord (f + 1) (.arr (x :: r)) d flat).1
+            ((x :: r).map (build w.o ord f)) 0 (s.push1 91) hrok h1.1
+          have h2 := push_ok _ (lay w ord (f + 1) (.arr (x :: r)) d flat).2.1 hsp.1
+          have h3 := push1_ok _ 93 h2.1
+          have h4 := flush_ok lim _ h3.1
+          simp only
+          refine ⟨h4.1, ?_⟩
+          rw [h4.2, h3.2, h2.2, hsp.2, h1.2]
+          simp only [List.map_cons, rowsT, Nat.lt_irrefl, ↓reduceIte, List.nil_append, Nat.zero_add, rowsT_eq]
+          simp
     | obj kvs =>
       have hm : (buildMembers w.o (build w.o ord f) (sortKvs (ord kvs)) [] 2 0).1 =
           (keptP w ord f kvs).map fun kv => (jsonString kv.1 (!w.o.htmlUnsafe), build w.o ord f kv.2) := by
@@ -474,12 +612,12 @@ theorem fill_flat (w : PW) (lim : Option Nat) (ord : Kvs → Kvs) (hord : IsOrde
       have hkw : (if w.o.align = true then
             maxKeyLen ((keptP w ord f kvs).map fun kv => (jsonString kv.1 (!w.o.htmlUnsafe), build w.o ord f kv.2)) 1
           else 1) = kwOf w ord f kvs := rfl
-      have hnm : ∀ kv ∈ keptP w ord f kvs, (w.o.align = true → noTable kv.2) := by
+      have hnm : ∀ kv ∈ keptP w ord f kvs, (w.o.align = true → tablesArr kv.2) := by
         intro kv hkv hal
         have hn := hnt hal
-        simp only [noTable] at hn
+        simp only [tablesArr] at hn
         have hperm : (sortKvs (ord kvs)).Perm kvs := (sortKvs_perm _).trans (hord kvs)
-        exact noTable_mem_kvs _ hn kv (hperm.mem_iff.mp ((List.filter_sublist).subset hkv))
+        exact tablesArr_mem_kvs _ hn kv (hperm.mem_iff.mp ((List.filter_sublist).subset hkv))
       rw [hb]
       simp only [fill, hl, hkw]
       have h1 := push1_ok s 123 hs
@@ -495,7 +633,7 @@ theorem fill_flat (w : PW) (lim : Option Nat) (ord : Kvs → Kvs) (hord : IsOrde
         have hsp := fillMembers_spec (fill w lim f) (build w.o ord f)
           (fun y => ptext w ord f y (d + 1) (lay w ord (f + 1) (.obj kvs) d flat).2.2) (!w.o.htmlUnsafe)
           (lay w ord (f + 1) (.obj kvs) d flat).1 (lay w ord (f + 1) (.obj kvs) d flat).2.2 (d + 1) (kwOf w ord f kvs)
-          r kx 0 (s.push1 123) (fun y hy s hs => ih y.2 (d + 1) _ s (hnm y (by rw [hk]; exact hy)) hs) h1.1
+          r kx 0 (s.push1 123) (fun y hy s hs => ih y.2 (d + 1) _ s (hnm y (by rw [hk]; exact hy)) (by omega) hs) h1.1
         have h2 := push_ok _ (lay w ord (f + 1) (.obj kvs) d flat).2.1 hsp.1
         have h3 := push1_ok _ 125 h2.1
         have h4 := flush_ok lim _ h3.1
@@ -530,15 +668,6 @@ theorem keptP_eq (w : PW) (ord : Kvs → Kvs) (f : Nat) (kvs : Kvs) (hf : 0 < f)
 
 /-! ### reading `ptext` back -/
 
-theorem nullStr_eq : Gen.Pretty.nullStr.toList = [110, 117, 108, 108] := by decide
-theorem trueStr_eq : Gen.Pretty.trueStr.toList = [116, 114, 117, 101] := by decide
-theorem falseStr_eq : Gen.Pretty.falseStr.toList = [102, 97, 108, 115, 101] := by decide
-
-/-- the generated separators and the indentation constant are white space -/
-structure SepWs : Prop where
-  spaces : (Gen.Pretty.spaces.toList.all Spec.isWs) = true
-  flat : (Gen.PrettyFill.flatCs.toList.all Spec.isWs) = true
-  deep : (Gen.PrettyFill.deepFlatCs.toList.all Spec.isWs) = true
 
 theorem layoutOf_ws (hsp : SepWs) (w : PW) (d : Nat) (flat : Bool) :
     ((layoutOf w d flat).1.all Spec.isWs) = true ∧ ((layoutOf w d flat).2.1.all Spec.isWs) = true := by
@@ -599,7 +728,11 @@ theorem ptext_head (w : PW) (ord : Kvs → Kvs) (f : Nat) (v : JV) (d : Nat) (fl
   | arr xs =>
     cases xs with
     | nil => exact ⟨91, _, by simp only [ptext]; rfl, by decide⟩
-    | cons x r => exact ⟨91, _, by simp only [ptext]; rfl, by decide⟩
+    | cons x r =>
+      simp only [ptext]
+      split
+      · exact ⟨91, _, rfl, by decide⟩
+      · exact ⟨91, _, rfl, by decide⟩
   | obj kvs =>
     simp only [ptext]
     split
@@ -669,15 +802,16 @@ theorem pMembers_tailK (hs : TableSafe Gen.Root.jMap) (pv : Bytes → Option (JV
 ascending key order; the reader's fuel only has to exceed the length of the text -/
 theorem parse_ptext (hs : TableSafe Gen.Root.jMap) (hsp : SepWs)
     (w : PW) (ord : Kvs → Kvs) (hord : IsOrder ord) :
-    ∀ (f : Nat) (v : JV) (d : Nat) (flat : Bool) (g : Nat) (rest : Bytes), okW v → depth v < f →
+    ∀ (f : Nat) (v : JV) (d : Nat) (flat : Bool) (g : Nat) (rest : Bytes), okW v →
+      (w.o.align = true → tablesArr v) → f ≤ w.fuel → depth v < f →
       (ptext w ord f v d flat).length < g → follows rest = true →
       Spec.pValue g (ptext w ord f v d flat ++ rest) =
         some (normG (omits (ojOptsOf w.o)) true ord f v, rest) := by
   intro f
   induction f with
-  | zero => intro v d flat g rest _ h; omega
+  | zero => intro v d flat g rest _ _ _ h; omega
   | succ f ih =>
-    intro v d flat g rest hok hf hg hrest
+    intro v d flat g rest hok hnt hfu hf hg hrest
     obtain ⟨g, rfl⟩ : ∃ g', g = g' + 1 := ⟨g - 1, by omega⟩
     cases v with
     | null => simpa [ptext, normG, nullStr_eq] using pValue_null g rest
@@ -702,9 +836,87 @@ theorem parse_ptext (hs : TableSafe Gen.Root.jMap) (hsp : SepWs)
       | cons x r =>
         have hlw := lay_ws hsp w ord (f + 1) (.arr (x :: r)) d flat
         generalize hl : lay w ord (f + 1) (.arr (x :: r)) d flat = l at hlw
-        simp only [ptext, hl] at hg ⊢
         have hokx : okW x := okW_mem_list _ hok x (by simp)
         have hdx : depth x ≤ depthList (x :: r) := depth_mem_list _ x (by simp)
+        have hnm : ∀ y ∈ x :: r, (w.o.align = true → tablesArr y) := by
+          intro y hy hal
+          have hn := hnt hal
+          simp only [tablesArr] at hn
+          exact tablesArr_mem_list _ hn.2 y hy
+        by_cases htab : ∃ c, tableOfV w ord f (x :: r) d = some c
+        · -- the rows are aligned
+          obtain ⟨c, htab⟩ := htab
+          simp only [ptext, hl, htab] at hg ⊢
+          have hal : w.o.align = true := by
+            unfold tableOfV at htab
+            exact (tableOf_some _ _ _ _ _ _ htab).1
+          obtain ⟨hia, hao, hta, hcov, hfit⟩ := tableOfV_facts w ord f (x :: r) d c (by omega) (hnt hal) htab
+          obtain ⟨fu, hfue⟩ : ∃ fu, w.fuel = fu + 1 := ⟨w.fuel - 1, by omega⟩
+          let tv := fun y => nodeT w.fuel (build w.o ord f y) c
+          have hrow : ∀ y ∈ x :: r, isArr y = true ∧ arrOnly y ∧ okW y ∧ depth y < f := by
+            intro y hy
+            refine ⟨?_, arrOnlyL_mem _ hao y hy, okW_mem_list _ hok y hy, ?_⟩
+            · simp only [List.all_eq_true] at hia; exact hia y hy
+            · have := depth_mem_list (x :: r) y hy; omega
+          have hth : ∀ y ∈ x :: r, ∃ b t, tv y = b :: t ∧ startByte b = true := by
+            intro y hy
+            obtain ⟨hya, _, _, hdy⟩ := hrow y hy
+            have : ∃ tl, nodeT w.fuel (build w.o ord f y) c = 91 :: tl := by
+              obtain ⟨f', rfl⟩ : ∃ f', f = f' + 1 := ⟨f - 1, by omega⟩
+              cases y with
+              | arr ys => rw [hfue]; exact ⟨_, rfl⟩
+              | _ => simp [isArr] at hya
+            obtain ⟨tl, htl⟩ := this
+            exact ⟨91, tl, htl, by decide⟩
+          have hpvrow : ∀ y ∈ x :: r, ∀ rest', (tv y).length < g → follows rest' = true →
+              Spec.pValue g (tv y ++ rest') = some (normG (omits (ojOptsOf w.o)) true ord f y, rest') := by
+            intro y hy rest' hl' hr'
+            obtain ⟨hya, haoy, hoky, hdy⟩ := hrow y hy
+            exact parse_nodeT hs hsp w ord hord f y c w.fuel g rest' hoky haoy hya hdy (hcov y hy) (by omega) hl' hr'
+          obtain ⟨b, t, hb, hsb⟩ := hth x (by simp)
+          obtain ⟨hws, hn93, -, -⟩ := startByte_facts b hsb
+          have hfol : follows (tElems tv l.1 r ++ l.2.1 ++ 93 :: rest) = true := by
+            cases r with
+            | nil =>
+              simp only [tElems, List.nil_append]
+              cases hcl : l.2.1 with
+              | nil => rfl
+              | cons c' cl' =>
+                have := hlw.2
+                rw [hcl] at this
+                simp only [List.all_cons, Bool.and_eq_true] at this
+                simp [follows, this.1]
+            | cons z r' => simp [tElems, follows]
+          have hlen1 : (tv x).length < g := by
+            simp only [List.length_cons, List.length_append] at hg
+            show (nodeT w.fuel (build w.o ord f x) c).length < g
+            omega
+          have h1 := hpvrow x (by simp) (tElems tv l.1 r ++ l.2.1 ++ 93 :: rest) hlen1 hfol
+          have hsk : Spec.skipWs (l.1 ++ (tv x ++ (tElems tv l.1 r ++ l.2.1 ++ 93 :: rest))) =
+              b :: (t ++ (tElems tv l.1 r ++ l.2.1 ++ 93 :: rest)) := by
+            rw [skipWs_ws_append _ _ hlw.1, hb, List.cons_append, skipWs_nonws b _ hws]
+          have h1' : Spec.pValue g (b :: (t ++ (tElems tv l.1 r ++ l.2.1 ++ 93 :: rest))) =
+              some (normG (omits (ojOptsOf w.o)) true ord f x, tElems tv l.1 r ++ l.2.1 ++ 93 :: rest) := by
+            rw [← List.cons_append, ← hb]; exact h1
+          have hopen := pValue_open_arr g _ _ _ b _ hsk hn93 h1'
+          have htail := pElems_tail (Spec.pValue g) tv (normG (omits (ojOptsOf w.o)) true ord f) l.1 l.2.1 rest
+            hlw.1 hlw.2 r [normG (omits (ojOptsOf w.o)) true ord f x]
+            ((tElems tv l.1 r ++ l.2.1 ++ 93 :: rest).length + 1)
+            (by have := tElems_length tv l.1 r; simp; omega)
+            (fun y hy => hth y (by simp [hy]))
+            (fun y hy rest' hr' => hpvrow y (by simp [hy]) rest' (by
+                have := tElems_mem_le (fun y => nodeT w.fuel (build w.o ord f y) c) l.1 r y hy
+                simp only [List.length_cons, List.length_append] at hg
+                show (nodeT w.fuel (build w.o ord f y) c).length < g
+                omega) hr')
+          simp only [normG, List.cons_append, List.append_assoc, List.map_cons, List.nil_append]
+          simp only [List.append_assoc, List.cons_append, List.nil_append] at hopen htail
+          exact hopen.trans (by simpa using htail)
+        have htab : tableOfV w ord f (x :: r) d = none := by
+          cases h : tableOfV w ord f (x :: r) d with
+          | none => rfl
+          | some c => exact absurd ⟨c, h⟩ htab
+        simp only [ptext, hl, htab] at hg ⊢
         have hth : ∀ y, okW y → ∃ b t, ptext w ord f y (d + 1) l.2.2 = b :: t ∧ startByte b = true := by
           intro y hy
           obtain ⟨f', rfl⟩ : ∃ f', f = f' + 1 := ⟨f - 1, by omega⟩
@@ -730,7 +942,7 @@ theorem parse_ptext (hs : TableSafe Gen.Root.jMap) (hsp : SepWs)
           | cons z r' => simp [tElems, follows]
         have hlen1 : (ptext w ord f x (d + 1) l.2.2).length < g := by
           simp only [List.length_cons, List.length_append] at hg; omega
-        have h1 := ih x (d + 1) l.2.2 g (tElems tv l.1 r ++ l.2.1 ++ 93 :: rest) hokx (by omega) hlen1 hfol
+        have h1 := ih x (d + 1) l.2.2 g (tElems tv l.1 r ++ l.2.1 ++ 93 :: rest) hokx (hnm x (by simp)) (by omega) (by omega) hlen1 hfol
         have hsk : Spec.skipWs ((if l.2.2 = true then [] else l.1) ++ (ptext w ord f x (d + 1) l.2.2 ++
             (tElems tv l.1 r ++ l.2.1 ++ 93 :: rest))) = b :: (t ++ (tElems tv l.1 r ++ l.2.1 ++ 93 :: rest)) := by
           rw [skipWs_ws_append _ _ hcs0, hb, List.cons_append, skipWs_nonws b _ hws]
@@ -744,6 +956,7 @@ theorem parse_ptext (hs : TableSafe Gen.Root.jMap) (hsp : SepWs)
           (by have := tElems_length tv l.1 r; simp; omega)
           (fun y hy => hth y (okW_mem_list _ hok y (by simp [hy])))
           (fun y hy rest' hr' => ih y (d + 1) l.2.2 g rest' (okW_mem_list _ hok y (by simp [hy]))
+            (hnm y (by simp [hy])) (by omega)
             (by have := depth_mem_list (x :: r) y (by simp [hy]); omega)
             (by
               have := tElems_mem_le (fun y => ptext w ord f y (d + 1) l.2.2) l.1 r y hy
@@ -783,6 +996,11 @@ theorem parse_ptext (hs : TableSafe Gen.Root.jMap) (hsp : SepWs)
           obtain ⟨f', rfl⟩ : ∃ f', f = f' + 1 := ⟨f - 1, by omega⟩
           exact ptext_head w ord f' y (d + 1) l.2.2 hy
         have hokm : ∀ kv ∈ (k, x) :: r, okW kv.2 := fun kv h => okW_mem_kvs _ hok.2 kv (hmem kv h)
+        have hnmk : ∀ kv ∈ (k, x) :: r, (w.o.align = true → tablesArr kv.2) := by
+          intro kv hkv hal
+          have hn := hnt hal
+          simp only [tablesArr] at hn
+          exact tablesArr_mem_kvs _ hn kv (hmem kv hkv)
         have hdm : ∀ kv ∈ (k, x) :: r, depth kv.2 ≤ depthKvs kvs := fun kv h => depth_mem_kvs _ kv (hmem kv h)
         have hokx : okW x := hokm (k, x) (by simp)
         have hdx := hdm (k, x) (by simp)
@@ -806,7 +1024,7 @@ theorem parse_ptext (hs : TableSafe Gen.Root.jMap) (hsp : SepWs)
         have hlen1 : (ptext w ord f x (d + 1) l.2.2).length < g := by
           simp only [List.length_cons, List.length_append] at hg; omega
         have h1 := ih x (d + 1) l.2.2 g (tMembersK (!w.o.htmlUnsafe) tv l.1 (kwOf w ord f kvs) r ++ l.2.1 ++ 125 :: rest)
-          hokx (by simp at hdx; omega) hlen1 hfol
+          hokx (hnmk (k, x) (by simp)) (by omega) (by simp at hdx; omega) hlen1 hfol
         have hm := pMember_text hs (Spec.pValue g) k (!w.o.htmlUnsafe)
           (32 :: List.replicate (kwOf w ord f kvs - (jsonString k (!w.o.htmlUnsafe)).length) 32) (ptext w ord f x (d + 1) l.2.2)
           (tMembersK (!w.o.htmlUnsafe) tv l.1 (kwOf w ord f kvs) r ++ l.2.1 ++ 125 :: rest)
@@ -833,6 +1051,7 @@ theorem parse_ptext (hs : TableSafe Gen.Root.jMap) (hsp : SepWs)
           (by have := tMembersK_length (!w.o.htmlUnsafe) tv l.1 (kwOf w ord f kvs) r; simp; omega)
           (fun kv hkv => hth kv.2 (hokm kv (by simp [hkv])))
           (fun kv hkv rest' hr' => ih kv.2 (d + 1) l.2.2 g rest' (hokm kv (by simp [hkv]))
+            (hnmk kv (by simp [hkv])) (by omega)
             (by have := hdm kv (by simp [hkv]); omega)
             (by
               have := tMembersK_mem_le (!w.o.htmlUnsafe) (fun y => ptext w ord f y (d + 1) l.2.2) l.1 (kwOf w ord f kvs) r kv hkv
@@ -980,11 +1199,20 @@ theorem fill_sent (w : PW) :
 
 theorem pwOf_o (o : POpts) (ord : Kvs → Kvs) (v : JV) : (pwOf o ord v).o = o := rfl
 
+theorem pwOf_fuel (o : POpts) (ord : Kvs → Kvs) (v : JV) : (pwOf o ord v).fuel = depth v + 2 := rfl
+
+/-- `encode` clamps the width to the length of the `spaces` constant -/
+theorem pwOf_width (o : POpts) (ord : Kvs → Kvs) (v : JV) : (pwOf o ord v).width ≤ 128 := by
+  have h := spaces_size
+  simp only [pwOf, h]
+  split <;> omega
+
 /-- when no table is aligned the in-memory text is `ptext` -/
 theorem prettyWrite_eq_ptext (o : POpts) (ord : Kvs → Kvs) (hord : IsOrder ord) (v : JV)
-    (hnt : o.align = true → noTable v) :
+    (hnt : o.align = true → tablesArr v) :
     prettyWrite o ord v = ptext (pwOf o ord v) ord (depth v + 1) v 0 false := by
-  have h := fill_flat (pwOf o ord v) none ord hord (depth v + 1) v 0 false {} hnt rfl
+  have h := fill_flat (pwOf o ord v) none ord hord (pwOf_width o ord v) (depth v + 1) v 0 false {} hnt
+    (by rw [pwOf_fuel]; omega) rfl
   have hs := fill_sent (pwOf o ord v) (depth v + 1) (build o ord (depth v + 1) v) 0 false {}
   have hf : ({} : PSt).flat = [] := rfl
   rw [hf, List.nil_append] at h
@@ -1002,9 +1230,10 @@ theorem prettyWrite_eq_ptext (o : POpts) (ord : Kvs → Kvs) (hord : IsOrder ord
 
 /-- … and so are the chunks handed to the `io.Writer`, joined, for every WriteLimit -/
 theorem prettyWriteTo_flatten (o : POpts) (ord : Kvs → Kvs) (hord : IsOrder ord) (limit : Nat) (v : JV)
-    (hnt : o.align = true → noTable v) :
+    (hnt : o.align = true → tablesArr v) :
     (prettyWriteTo o ord limit v).flatten = ptext (pwOf o ord v) ord (depth v + 1) v 0 false := by
-  have h := fill_flat (pwOf o ord v) (some (effLimit limit)) ord hord (depth v + 1) v 0 false {} hnt rfl
+  have h := fill_flat (pwOf o ord v) (some (effLimit limit)) ord hord (pwOf_width o ord v) (depth v + 1) v 0 false {} hnt
+    (by rw [pwOf_fuel]; omega) rfl
   have hf : ({} : PSt).flat = [] := rfl
   rw [hf, List.nil_append, pwOf_o] at h
   show (if (encodeSt o ord (some (effLimit limit)) v).bad then (encodeSt o ord (some (effLimit limit)) v).st.sent.reverse
@@ -1016,5 +1245,56 @@ theorem prettyWriteTo_flatten (o : POpts) (ord : Kvs → Kvs) (hord : IsOrder or
   simp only [Bool.false_eq_true, ↓reduceIte]
   rw [chunks_flatten]
   exact h.2
+
+
+/-! ### trees without tables are trees whose tables are tables of arrays -/
+
+theorem tablesArr_of_noTable : ∀ (n : Nat) (v : JV), depth v < n → noTable v → tablesArr v := by
+  intro n
+  induction n with
+  | zero => intro v h; omega
+  | succ n ih =>
+    intro v hd hv
+    cases v with
+    | arr xs =>
+      simp only [noTable] at hv
+      simp only [depth] at hd
+      simp only [tablesArr]
+      refine ⟨?_, ?_⟩
+      · intro h2
+        rcases hv.1 with h | h
+        · omega
+        · refine ⟨?_, fun ha => absurd (Or.inl ha) h⟩
+          cases ho : xs.all isObj with
+          | false => rfl
+          | true => exact absurd (Or.inr ho) h
+      · have hl : ∀ (ys : List JV), (∀ y ∈ ys, y ∈ xs) → noTableList ys → tablesArrL ys := by
+          intro ys
+          induction ys with
+          | nil => intro _ _; simp [tablesArrL]
+          | cons y r ihr =>
+            intro hm hn
+            simp only [noTableList] at hn
+            simp only [tablesArrL]
+            exact ⟨ih y (by have := depth_mem_list xs y (hm y (by simp)); omega) hn.1,
+              ihr (fun z hz => hm z (by simp [hz])) hn.2⟩
+        exact hl xs (fun _ h => h) hv.2
+    | obj kvs =>
+      simp only [noTable] at hv
+      simp only [depth] at hd
+      simp only [tablesArr]
+      have hl : ∀ (ys : Kvs), (∀ y ∈ ys, y ∈ kvs) → noTableKvs ys → tablesArrK ys := by
+        intro ys
+        induction ys with
+        | nil => intro _ _; simp [tablesArrK]
+        | cons y r ihr =>
+          intro hm hn
+          obtain ⟨k, x⟩ := y
+          simp only [noTableKvs] at hn
+          simp only [tablesArrK]
+          exact ⟨ih x (by have := depth_mem_kvs kvs (k, x) (hm _ (by simp)); simp at this; omega) hn.1,
+            ihr (fun z hz => hm z (by simp [hz])) hn.2⟩
+      exact hl kvs (fun _ h => h) hv
+    | _ => simp [tablesArr]
 
 end OjgVerif.Writer.Pretty
